@@ -54,6 +54,20 @@ def _line_strategy():
         'kind': st.sampled_from(IC.PERSISTENT), 'scenario': st.just('persist'), 'items': st.lists(st.sampled_from([1, 2, 'POISON']), max_size=3),
         'close': st.booleans(), 'pipe': st.sampled_from(['default', 'supplied']),
         'inject': st.fixed_dictionaries({'mode': st.just('terminate'), 'n_raw': st.integers(0, 600)})})
+    # terminate landing while the child is inside the code that sends a (small or > 64 KiB) partial result - between any two lines of
+    # send_msg / _send_result / put (round-4 seed C03-m8: header and body of a large message sent by two calls)
+    # (large results only where nothing between the child and the parent's unbounded default queue can fill up: C03 does not read the
+    # results, and a forwarding thread blocked on a full caller-supplied OS pipe legitimately keeps the worker alive - false alarm of the
+    # first version of this generator, 5.3)
+    sendf = st.one_of(
+        st.fixed_dictionaries({
+            'kind': st.just('p_remote'), 'scenario': st.just('persist'), 'items': st.lists(st.sampled_from([1, 'BIG', 'BIG']), min_size=1, max_size=3),
+            'close': st.booleans(), 'pipe': st.just('default'),
+            'inject': st.fixed_dictionaries({'mode': st.just('terminate'), 'n_raw': st.integers(0, 600), 'focus': st.sampled_from(['send', 'send_msg'])})}),
+        st.fixed_dictionaries({
+            'kind': st.sampled_from(IC.PERSISTENT), 'scenario': st.just('persist'), 'items': st.lists(st.sampled_from([1, 2]), min_size=1, max_size=3),
+            'close': st.booleans(), 'pipe': st.sampled_from(['default', 'supplied']),
+            'inject': st.fixed_dictionaries({'mode': st.just('terminate'), 'n_raw': st.integers(0, 600), 'focus': st.just('send')})}))
     idle = st.fixed_dictionaries({
         'kind': st.sampled_from(IC.PERSISTENT), 'scenario': st.just('persist'), 'items': st.lists(st.sampled_from([1, 2]), max_size=2),
         'close': st.just(False), 'pipe': st.just('default'), 'settle': st.sampled_from([0.0, 0.05, 0.3]),
@@ -74,7 +88,7 @@ def _line_strategy():
     ust = st.fixed_dictionaries({
         'kind': st.just('remote'), 'scenario': st.sampled_from(['spin_state:lock', 'spin_state:needsargs']), 'items': st.just([]), 'close': st.just(False),
         'pipe': st.just('default'), 'settle': st.sampled_from([0.2, 0.4]), 'inject': st.just({'mode': 'terminate_now'})})
-    return st.one_of(one, one, one, pers, pers, idle, fin, held, ust)
+    return st.one_of(one, one, one, pers, pers, idle, fin, held, ust, sendf, sendf)
 
 
 def exhaustive(tier, shard, nshards):
@@ -134,6 +148,9 @@ def _ctrl_census(case, ctx):
     return cache[key]
 
 
+_SEND_FUNCS = ('send_msg', '_send_result', 'put', '_send_partial_result', 'send')
+
+
 def run_case(case, ctx):
     out = Out()
     inj = dict(case['inject'])
@@ -153,6 +170,11 @@ def run_case(case, ctx):
         elif (inj.get('focus') == 'target' or case['scenario'] == 'spin_finally' and inj['n_raw'] % 4) and any(e[1] == 'vtargets.py' for e in cen['trace']):
             cand = [e[0] for e in cen['trace'] if e[1] == 'vtargets.py' and e[0] >= cen['s0']]
             inj['n'] = cand[inj['n_raw'] % len(cand)]
+        elif inj.get('focus') in ('send', 'send_msg') and any(e[2] in _SEND_FUNCS for e in cen['trace'] if e[0] >= cen['s0']):
+            funcs = _SEND_FUNCS if inj['focus'] == 'send' or not any(e[2] == 'send_msg' for e in cen['trace'] if e[0] >= cen['s0']) else ('send_msg',)
+            cand = [e[0] for e in cen['trace'] if e[2] in funcs and e[0] >= cen['s0']]
+            inj['n'] = cand[inj['n_raw'] % len(cand)]
+            out.label('focus:result_send')
         else:
             inj['n'] = cen['s0'] + inj['n_raw'] % span
         c['inject'] = inj
